@@ -229,6 +229,7 @@ type c14Want struct {
 func runC14(p *core.Program, r *core.Report) {
 	c := rc{p, r}
 	noAnswerBeforeTheScan(c, "gogu.Keys", "gogu.Values", "gogu.MapValues", "gogu.MapKeys", "gogu.MapEvery", "gogu.MapSome", "gogu.MapContains", "gogu.MapUnique", "gogu.MapCollection", "gogu.Find", "gogu.FindKey", "gogu.FindByKey", "gogu.Invert", "gogu.Pick", "gogu.PickBy", "gogu.Omit", "gogu.OmitBy", "gogu.Pluck", "gogu.PartitionMap", "gogu.SliceToMap", "gogu.FilterMap", "gogu.FilterMapCollection", "gogu.Filter2DMapCollection")
+	resultUntouchedAfterTheScan(c, "gogu.Keys", "gogu.Values", "gogu.MapValues", "gogu.MapKeys", "gogu.MapEvery", "gogu.MapSome", "gogu.MapContains", "gogu.MapUnique", "gogu.MapCollection", "gogu.Find", "gogu.FindKey", "gogu.FindByKey", "gogu.Invert", "gogu.Pick", "gogu.PickBy", "gogu.Omit", "gogu.OmitBy", "gogu.Pluck", "gogu.PartitionMap", "gogu.SliceToMap", "gogu.FilterMap", "gogu.FilterMapCollection", "gogu.Filter2DMapCollection")
 	hygiene(c, "map.go", "filter.go")
 	table := map[string][]c14Want{
 		"gogu.Keys":          {{kind: "store", key: "iv", val: "range(m)#1"}},
